@@ -141,6 +141,25 @@ def ok_string(s, expression_capable=False):
     return True
 
 
+_ENUM_WORDS = []
+
+
+def enum_words():
+    """Every enumerated word of any keyword: used as FREE-string values of other keywords (a word that is an enum member for one
+    keyword must still be written as a quoted string for a keyword where it is just text)."""
+    if not _ENUM_WORDS:
+        seen = set()
+        for o in vocab.object_types():
+            for p in vocab.props(o).values():
+                for a in p.alts:
+                    if a.kind == "enum":
+                        for m in a.info["members"]:
+                            if isinstance(m, str) and m not in seen and not m.lower().startswith("include"):
+                                seen.add(m)
+                                _ENUM_WORDS.append(m)
+    return _ENUM_WORDS
+
+
 MULTILINE = [True]  # workloads that cut documents at line boundaries (C15) switch multi-line strings off
 
 
@@ -150,6 +169,9 @@ def rand_string(r, expression_capable=False, minlen=None, maxlen=None, multiline
         k = r.random()
         if maxlen == 1:
             s = r.choice("abcXYZ .,;é€/|~")
+        elif k < 0.08:
+            s = r.choice(enum_words())
+            s = r.choice([s, s.upper(), s.lower()])
         elif k < 0.55:
             s = r.choice(WORDS)
         elif k < 0.7:
@@ -221,7 +243,7 @@ def rand_bind(r):
 
 
 def rand_hex(r):
-    n = r.choice([3, 6, 6, 8])
+    n = r.choice([3, 6, 6, 8, 8])
     return "#" + "".join(r.choice("0123456789abcdefABCDEF") for _ in range(n))
 
 
